@@ -49,6 +49,7 @@ std::string plan_to_json(const Plan &p, bool pretty) {
 	snprintf(buf, sizeof buf, ",\"p_num\":%u,\"p_den\":%u,\"park_site\":%d,\"park_num\":%u,\"park_den\":%u,\"audit_every\":%d,\"replay\":%s",
 	         p.p_num, p.p_den, p.park_site, p.park_num, p.park_den, p.audit_every, p.replay ? "true" : "false"); s += buf;
 	if (p.items) { snprintf(buf, sizeof buf, ",\"items\":%llu", (unsigned long long)p.items); s += buf; }
+	if (p.fullmem_model) s += ",\"fullmem_model\":true";
 	if (!p.note.empty()) s += ",\"note\":\"" + rt::json_escape(p.note) + "\"";
 	auto blobs = [&](const char *name, const std::vector<Blob> &v) {
 		s += std::string(",") + nl + "\"" + name + "\":[";
@@ -99,6 +100,7 @@ bool plan_from_json(const rt::JVal &j, Plan &p, std::string &err) {
 	p.park_site = (int)j.num("park_site"); p.park_num = (uint32_t)j.num("park_num"); p.park_den = (uint32_t)j.num("park_den", 1); if (!p.park_den) p.park_den = 1;
 	p.audit_every = (int)j.num("audit_every");
 	p.items = j.u64("items");
+	if (auto r = j.get("fullmem_model")) p.fullmem_model = r->t == rt::JVal::BOOL && r->b;
 	if (auto r = j.get("replay")) p.replay = r->t == rt::JVal::BOOL && r->b;
 	p.note = j.str("note");
 	auto blobs = [&](const char *name, std::vector<Blob> &v) {
